@@ -305,8 +305,15 @@ func (t *Collection) MaxItem(withValue bool) (*Item, error) {
 // For concurrent users, only the single mutator thread should call
 // EvictSomeItems(), making it serialized with mutations.
 func (t *Collection) EvictSomeItems() (numEvicted uint64) {
+	numEvicted, _ = t.evictSomeItems()
+	return numEvicted
+}
+
+// evictSomeItems is EvictSomeItems that also reports an I/O error met while
+// walking down the tree, for callers that have an error to return.
+func (t *Collection) evictSomeItems() (numEvicted uint64, err error) {
 	if t.store.readOnly {
-		return 0
+		return 0, nil
 	}
 	i, err := t.store.walk(t, false, func(n *node) (*nodeLoc, bool) {
 		if j := n.Evict(); j != nil {
@@ -325,7 +332,7 @@ func (t *Collection) EvictSomeItems() (numEvicted uint64) {
 	if i != nil && err != nil {
 		t.store.ItemDecRef(t, i)
 	}
-	return numEvicted
+	return numEvicted, err
 }
 
 // ItemVisitor is a function type for things that can visit an item
